@@ -1133,10 +1133,10 @@ Example ex3_connect_will_qos_no_will :
   run3 [16; 12; 0; 4; 77; 81; 84; 84; 4; 8; 0; 10; 0; 0] = all3 (InvalidConnectFlags 8).
 Proof. vm_compute. reflexivity. Qed.
 Example ex3_connect_will_qos3 :
-  run3 [16; 19; 0; 4; 77; 81; 84; 84; 4; 28; 0; 10; 0; 0; 0; 1; 119; 0; 1; 109] = all3 (InvalidQos 3).
+  run3 [16; 18; 0; 4; 77; 81; 84; 84; 4; 28; 0; 10; 0; 0; 0; 1; 119; 0; 1; 109] = all3 (InvalidQos 3).
 Proof. vm_compute. reflexivity. Qed.
 Example ex3_connect_will_topic :
-  run3 [16; 19; 0; 4; 77; 81; 84; 84; 4; 4; 0; 10; 0; 0; 0; 1; 35; 0; 1; 109] = all3 (InvalidTopicName [35]).
+  run3 [16; 18; 0; 4; 77; 81; 84; 84; 4; 4; 0; 10; 0; 0; 0; 1; 35; 0; 1; 109] = all3 (InvalidTopicName [35]).
 Proof. vm_compute. reflexivity. Qed.
 Example ex3_protocol_name :
   run3 [16; 12; 0; 4; 77; 81; 84; 88; 4; 2; 0; 10; 0; 0] = all3 (InvalidProtocol [77; 81; 84; 88] 4).
